@@ -308,6 +308,14 @@ func Gen(t *rapid.T, o GenOpt) Case {
 		fs.Pre = dropAvoided(o, FeatPrftBeforeMoof, genExtras(t, preKinds, c.TrackID, "pre-"), func(x Extra) bool { return x.Type == "prft" })
 		fs.InMoof = genExtras(t, extraKinds, c.TrackID, "inmoof-")
 		fs.InTraf = dropAvoided(o, FeatUUIDInTraf, genExtras(t, extraKinds, c.TrackID, "intraf-"), func(x Extra) bool { return x.Type == "uuid" })
+		if pct(t, 12, "rollGroup") {
+			// a sample-group pair that is not protection signalling (audio pre-roll / video recovery point):
+			// sbgp 'roll' mapping all samples of the fragment to entry 1 of a fragment-local sgpd 'roll'
+			be := func(v uint32) []byte { return []byte{byte(v >> 24), byte(v >> 16), byte(v >> 8), byte(v)} }
+			sgpd := append(append([]byte{1, 0, 0, 0}, []byte("roll")...), append(append(be(2), be(1)...), 0xff, 0xfe)...)
+			sbgp := append(append([]byte{0, 0, 0, 0}, []byte("roll")...), append(append(be(1), be(uint32(fs.N))...), be(0x10001)...)...)
+			fs.InTraf = append(fs.InTraf, Extra{Type: "sgpd", Payload: sgpd, Label: "rollgroup"}, Extra{Type: "sbgp", Payload: sbgp, Label: "rollgroup"})
+		}
 		c.Frags = append(c.Frags, fs)
 	}
 
